@@ -2,6 +2,7 @@ import Mp4ff.Model.Nalu
 import Mp4ff.Model.AvcSps
 import Mp4ff.Lemmas.C16Nalu
 import Mp4ff.Lemmas.C15
+import Mp4ff.Props.C15b
 /-!
 # C16 — untrusted elementary-stream bytes never crash or hang the codec helpers
 What a theorem can carry of this property, proved for **every** byte string: the length-prefixed NAL-unit walkers
